@@ -6,7 +6,7 @@ from hypothesis import strategies as st
 from vlib import alngen, engine, formats, gen, kal, present, runner
 
 ID = "C17"
-RULE = ("Uniquely named sequences (2..25, generated sets) and two alignments of them. Each alignment is either produced "
+RULE = ("Uniquely named sequences (2..25 generated sets; one case in six is tall: 40..75 sequences of equal length of which only the last or first 1..6 are shorter, so that only those rows carry gaps) and two alignments of them. Each alignment is either produced "
         "in-process by kalign_run, or a random gap placement (equal-length rows, all-gap columns allowed, >= 1 gap) written by "
         "my writers as aligned FASTA / MSF / Clustal; row orders shuffled independently. Modes: 'independent' (two unrelated "
         "alignments), 'same' (test = reference with rows permuted and all-gap columns inserted, expected score 100) and "
@@ -19,9 +19,12 @@ ASSUMPTIONS = ["files contain at least one gap character (a gap-free file is by 
 BUDGET = {"quick": dict(examples=800, workers=12, seconds=60), "thorough": dict(examples=1200, workers=16, seconds=480)}
 
 
-def random_alignment(seqs, seed, extra_cols):
+def random_alignment(seqs, seed, extra_cols, gap_rows=None):
+    """gap_rows: None = gaps anywhere; ("last", k) / ("first", k): only those rows may carry gaps (needs equal lengths)"""
     rnd = random.Random(seed)
     L = max(len(s) for s in seqs) + rnd.randint(0, extra_cols)
+    if gap_rows is not None:
+        L = max(len(s) for s in seqs)
     rows = []
     for s in seqs:
         pos = sorted(rnd.sample(range(L), len(s)))
@@ -121,7 +124,26 @@ def score_ref(names_r, rows_r, names_t, rows_t):
 
 @st.composite
 def cases(draw, tier):
-    ss = draw(gen.seqsets(max_n=12 if tier == "quick" else 25, max_len=80 if tier == "quick" else 200, dup=True))
+    tall = draw(st.integers(0, 5)) == 0
+    if tall:
+        # tall alignments in which only the last (or first) few rows carry gaps: full-length sequences plus a few with deletions
+        k0, alpha = draw(gen.alphabets())
+        rnd = random.Random(draw(st.integers(0, 2 ** 32 - 1)))
+        n = draw(st.sampled_from([40, 49, 50, 51, 52, 60, 75]))
+        L = draw(st.integers(6, 30))
+        anc = [rnd.choice(alpha) for _ in range(L)]
+        kshort = draw(st.integers(1, 6))
+        seqs = []
+        for i in range(n):
+            s = [c if rnd.random() > 0.2 else rnd.choice(alpha) for c in anc]
+            if i >= n - kshort:
+                del s[rnd.randrange(len(s) - 1)]
+            seqs.append("".join(s))
+        if draw(st.booleans()):
+            seqs.reverse()
+        ss = {"kind": gen.expected_kind(seqs), "seqs": seqs}
+    else:
+        ss = draw(gen.seqsets(max_n=12 if tier == "quick" else 25, max_len=80 if tier == "quick" else 200, dup=True))
     seqs = ss["seqs"]
     n = len(seqs)
     names = draw(gen.names_for(n, max_len=30, long_names=False))
@@ -152,6 +174,8 @@ def check(case):
     kl = "P" if kind == "protein" else "N"
     wd = runner.workdir()
     cl = ["mode=" + case["mode"], "ref=" + case["ref"]["how"], "test=" + case["test"]["how"]]
+    if n > 50:
+        cl.append("rows>50")
 
     def load(slot, side, rows):
         """returns script lines that put an alignment in `slot`; rows None -> run kalign"""
